@@ -116,10 +116,19 @@ def apply_op(name, obj, others, arg):
         return sorted(tuple(s.value for s in x) for x in itertools.islice(obj.get_accepted_words(2), 200))
     if name == "get_words":
         return sorted(tuple(s.value for s in x) for x in itertools.islice(obj.get_words(3), 200))
+    if name == "share_productions":
+        # a grammar built by the user from the Production objects of two existing grammars (shared Variable objects)
+        from pyformlang.cfg import CFG
+        return CFG(start_symbol=obj.start_symbol, productions=list(obj.productions) + list(others[0].productions))
     if name == "eq":
         return obj == others[0]
     if name == "str":
         return str(obj)
+    if name == "to_text":
+        # names of synthesised variables are not demanded to be history independent: the answer is compared by
+        # shape (number of productions and body lengths), the language of derived grammars by their own events
+        lines = [l for l in obj.to_text().splitlines() if l.strip()]
+        return sorted(len(l.split("->", 1)[1].split()) for l in lines)
     if name in ("is_equivalent_to", "get_intersection", "get_difference", "union", "concatenate", "intersection"):
         return getattr(obj, name)(others[0])
     return getattr(obj, name)()
@@ -138,7 +147,7 @@ OPS = {
             ("to_normal_form", 0), ("remove_useless_symbols", 0), ("remove_epsilon", 0),
             ("eliminate_unit_productions", 0), ("get_words", 0), ("union", "cfg"), ("concatenate", "cfg"),
             ("get_closure", 0), ("reverse", 0), ("intersection", "fa"), ("intersection", "regex"), ("to_pda", 0),
-            ("is_normal_form", 0), ("to_text", 0)],
+            ("is_normal_form", 0), ("to_text", 0), ("share_productions", "cfg"), ("intersection", "fa")],
     "pda": [("to_cfg", 0), ("to_final_state", 0), ("to_empty_stack", 0), ("intersection", "fa"), ("to_dict", 0),
             ("get_number_transitions", 0)],
     "fst": [("translate", 0), ("translate", 0), ("union", "fst"), ("concatenate", "fst"), ("kleene_star", 0),
@@ -323,6 +332,15 @@ def base_pool(rng):
     add("fst", gfst.random_case(rng, max_states=2, max_trans=4, vcs=["str"]))
     from vf.props.c17 import rand_rules
     add("ig", [list(r) for r in rand_rules(rng, max_n=3)][:5])
+    e1 = gfa.random_case(rng, max_states=3, max_syms=2, kinds=("enfa",), vcs=["int"], token=True)
+    e1["final"] = []
+    e1.pop("edits", None)
+    add("fa", e1)                                   # 9: empty language (no final state)
+    e2 = gfa.random_case(rng, max_states=2, max_syms=2, kinds=("dfa",), vcs=["str"], token=True)
+    e2["final"] = [e2["n"]]
+    e2["n"] += 1
+    e2.pop("edits", None)
+    add("fa", e2)                                   # 10: empty language (final state unreachable)
     return pool
 
 
@@ -339,6 +357,7 @@ def run_history(c, stats):
         e["kind"] = e["origin"][1]
         e["base"] = True
     events = []
+    nbase = len(pool)
     scripted = c.get("script")
     steps = len(scripted) if scripted else c.get("length", 20)
     kinds_done = set()
@@ -346,7 +365,10 @@ def run_history(c, stats):
     for step in range(steps):
         if scripted:
             st = scripted[step]
-            ti, name, oi, arg, mut = st["target"], st.get("op"), st.get("others", []), st.get("arg", 0), st.get("mutate")
+            def _res(x):
+                return nbase + int(x[1:]) if isinstance(x, str) else x
+            ti, name, oi, arg, mut = _res(st["target"]), st.get("op"), [_res(x) for x in st.get("others", [])], \
+                st.get("arg", 0), st.get("mutate")
             if ti >= len(pool) or any(i >= len(pool) for i in oi):
                 core.LOG.discard("script_step_without_target")
                 continue
@@ -484,7 +506,8 @@ def prior_ops(events, ev):
 # ---------------------------------------------------------------- targeted histories
 
 def targeted(rng, n):
-    """scripts aimed at each cache in the anchors; pool indices: 0,1 fa  2,3 regex  4,5 cfg  6 pda  7 fst  8 ig"""
+    """scripts aimed at each cache in the anchors; pool indices: 0,1 fa  2,3 regex  4,5 cfg  6 pda  7 fst  8 ig
+    9,10 empty-language fa; "Rk" = the k-th object returned during the history"""
     out = []
     analyses = ["get_generating_symbols", "get_nullable_symbols", "generate_epsilon", "is_empty", "contains",
                 "to_normal_form", "get_words", "is_finite"]
@@ -500,31 +523,45 @@ def targeted(rng, n):
         out.append(script)
         # regex as sub-expression before / after its own accepts; mutated to_epsilon_nfa result
         out.append([{"target": 2, "op": "accepts", "arg": 1}, {"target": 2, "op": "union", "others": [3], "arg": 0},
-                    {"target": 9, "op": "accepts", "arg": 1}, {"target": 2, "op": "accepts", "arg": 2},
+                    {"target": "R0", "op": "accepts", "arg": 1}, {"target": 2, "op": "accepts", "arg": 2},
                     {"target": 3, "op": "accepts", "arg": 1}, {"target": 3, "op": "accepts", "arg": 2},
-                    {"target": 2, "op": "to_epsilon_nfa", "arg": 0}, {"target": 10, "mutate": "add_final_all"},
+                    {"target": 2, "op": "to_epsilon_nfa", "arg": 0}, {"target": "R1", "mutate": "add_final_all"},
                     {"target": 2, "op": "accepts", "arg": 0}, {"target": 2, "op": "accepts", "arg": 3},
-                    {"target": 9, "op": "to_epsilon_nfa", "arg": 0}, {"target": 2, "op": "accepts", "arg": 4},
+                    {"target": "R0", "op": "to_epsilon_nfa", "arg": 0}, {"target": 2, "op": "accepts", "arg": 4},
                     {"target": 3, "op": "accepts", "arg": 4}, {"target": 2, "op": "to_cfg", "arg": 0}])
         # DFA.to_deterministic / copy / minimize results mutated
-        out.append([{"target": 1, "op": "to_deterministic", "arg": 0}, {"target": 9, "mutate": "add_final_all"},
+        out.append([{"target": 1, "op": "to_deterministic", "arg": 0}, {"target": "R0", "mutate": "add_final_all"},
                     {"target": 1, "op": "accepts", "arg": 0}, {"target": 1, "op": "accepts", "arg": 1},
-                    {"target": 1, "op": "copy", "arg": 0}, {"target": 10, "mutate": "add_transition_new"},
+                    {"target": 1, "op": "copy", "arg": 0}, {"target": "R1", "mutate": "add_transition_new"},
                     {"target": 1, "op": "accepts", "arg": 1}, {"target": 1, "op": "minimize", "arg": 0},
-                    {"target": 0, "op": "to_dict", "arg": 0}, {"target": 12, "mutate": "clear"},
+                    {"target": 0, "op": "to_dict", "arg": 0}, {"target": "R3", "mutate": "clear"},
                     {"target": 0, "op": "get_number_transitions", "arg": 0}, {"target": 0, "op": "accepts", "arg": 1}])
         # PDA.to_dict mutated; repeated to_cfg / intersection over shared State objects
-        out.append([{"target": 6, "op": "to_dict", "arg": 0}, {"target": 9, "mutate": "clear"},
+        out.append([{"target": 6, "op": "to_dict", "arg": 0}, {"target": "R0", "mutate": "clear"},
                     {"target": 6, "op": "get_number_transitions", "arg": 0}, {"target": 6, "op": "to_cfg", "arg": 0},
-                    {"target": 6, "op": "to_final_state", "arg": 0}, {"target": 11, "op": "to_cfg", "arg": 0},
+                    {"target": 6, "op": "to_final_state", "arg": 0}, {"target": "R2", "op": "to_cfg", "arg": 0},
                     {"target": 6, "op": "to_cfg", "arg": 0}, {"target": 6, "op": "intersection", "others": [1], "arg": 0},
                     {"target": 4, "op": "intersection", "others": [1], "arg": 0},
                     {"target": 5, "op": "intersection", "others": [1], "arg": 0},
                     {"target": 4, "op": "intersection", "others": [1], "arg": 0}])
+        # shared Production / Variable objects between grammars, conversions in between
+        out.append([{"target": 4, "op": "intersection", "others": [0], "arg": 0},
+                    {"target": 4, "op": "share_productions", "others": [5], "arg": 0},
+                    {"target": "R1", "op": "intersection", "others": [1], "arg": 0},
+                    {"target": 5, "op": "intersection", "others": [1], "arg": 0},
+                    {"target": 5, "op": "share_productions", "others": [4], "arg": 0},
+                    {"target": "R4", "op": "intersection", "others": [0], "arg": 0},
+                    {"target": "R4", "op": "contains", "arg": 3}, {"target": "R1", "op": "to_pda", "arg": 0}])
+        # results of minimize() on two different empty-language automata: mutating one must not change the other
+        out.append([{"target": 9, "op": "minimize", "arg": 0}, {"target": 10, "op": "minimize", "arg": 0},
+                    {"target": "R0", "mutate": "add_transition_new"}, {"target": "R0", "mutate": "add_final_all"},
+                    {"target": 10, "op": "minimize", "arg": 0}, {"target": 9, "op": "is_equivalent_to", "others": [10], "arg": 0},
+                    {"target": 10, "op": "is_equivalent_to", "others": [0], "arg": 0}, {"target": "R1", "op": "accepts", "arg": 1},
+                    {"target": 9, "op": "minimize", "arg": 0}, {"target": "R3", "op": "accepts", "arg": 1}])
         # indexed grammar: repeated emptiness, after remove_useless_rules
         out.append([{"target": 8, "op": "is_empty", "arg": 0}, {"target": 8, "op": "is_empty", "arg": 0},
                     {"target": 8, "op": "remove_useless_rules", "arg": 0}, {"target": 8, "op": "is_empty", "arg": 0},
-                    {"target": 9, "op": "is_empty", "arg": 0}, {"target": 9, "op": "is_empty", "arg": 0}])
+                    {"target": "R0", "op": "is_empty", "arg": 0}, {"target": "R0", "op": "is_empty", "arg": 0}])
     return out
 
 
@@ -532,7 +569,7 @@ def plan(tier, rng, sl, nslices, stats):
     cfg = TIERS[tier]
     for _ in range(cfg["random"]):
         yield {"seed": rng.randrange(1 << 30), "length": rng.randint(10, 40)}
-    for rep in range(cfg["targeted"] * 6):
+    for rep in range(cfg["targeted"] * 8):
         seed = rng.randrange(1 << 30)
         for script in targeted(random.Random(seed), 1):
             yield {"seed": seed, "script": script}
